@@ -26,6 +26,10 @@ SELECTIONS = {
     # other vm variants: both vms of tutorial3 then need a setup test of the same name
     # the run's vm restrictions given by variant-set name: textually contained in tutorial_gui's own "only_vm1 = qemu_kvm_centos, qemu_kvm_fedora"
     "gui2q": ("leaves..tutorial_gui", "net1 net2", {"vm1": "qemu_kvm_centos", "vm2": "qemu_kvm_windows_10", "vm3": "qemu_kvm_ubuntu"}),
+    # tests of two test sets, the dependant first: the producer is composed as setup before it is unrolled as a selected test
+    "mixsets": ("leaves..tutorial_get.explicit_noop,normal..tutorial_gui.client_noop", "net1 net2"),
+    # local and remote workers in one run
+    "tut1mix": ("normal..tutorial1", "cluster1.net6 net1 net2"),
     "tut3fed": ("normal..tutorial3", "net1 net2", {"vm1": "Fedora", "vm2": "Win7", "vm3": "Ubuntu"}),
 }
 
